@@ -45,11 +45,11 @@ SPEC = dict(
     id="C19", corr="Corr.C19", driver="h_c19", overlay=True, extra_overlay=_extra_overlay,
     targets=["Properties/C19.vo", "Corr/C19.vo"],
     args=lambda tier, seed: (["-seed", seed, "-n", 300, "-dfs", 1, "-stress", 4] if tier == "quick"
-                             else ["-seed", seed, "-n", 10000, "-dfs", 2, "-maxruns", 6000, "-stress", 30]),
+                             else ["-seed", seed, "-n", 10000, "-dfs", 2, "-maxruns", 4500, "-stress", 30]),
     search_args=lambda seed: ["-seed", seed, "-n", 1500, "-dfs", 0],
     shard=150, timeout=1500,
     patterns={},
-    rule="controlled schedules of the REAL pkg/sleep code (instrumented copy generated per run from the current sleep_unsafe.go after the standard three-line toolchain patch: a schedule point before every sync/atomic call and before gopark; one goroutine is granted one atomic operation at a time; API-call boundaries are steps of their own): exhaustive DFS over all schedules of small client sets with visited-real-state pruning (quick: 3 sets of 1 sleeper goroutine + 1 asserting goroutine on 1 waker: the classic prepare/re-check/commit window, assert-clear-reassert against blocking and non-blocking Fetch, Done racing with Assert then re-AddWaker; thorough: + 5 sets of 1 sleeper + 2-3 goroutines on 1-2 wakers, depth bound 48, at most 6000 runs per set) + seeded random walks (optionally sticky) over random client programs: thread 0 = AddWaker of 1-3 wakers (one possibly late, one possibly asserted before being added), 1-5 blocking/non-blocking Fetches, optional Done + re-AddWaker with new ids + Fetches, occasional Assert by the sleeper goroutine itself; 1-4 further goroutines x 1-4 calls of Assert (60%) / Clear (25%) / IsAsserted (15%) (quick 300 runs, thorough 10000). After EVERY step (stepping thread's schedule point, thread 0's point or parked, API return value, every w.s class, waitingG class, sharedList / localList / allWakers as id lists read through overlay-added accessors) is compared with the Coq model run on the same schedule with the same step function the theorems are about; at the end of a maximal run the model must agree that nothing is enabled. The sleeper's real park is predicted from the real state (gopark granted while waitingG == preparingG); a readied sleeper is awaited with a 2 s watchdog (hung = violation). + uncontrolled Gosched-injection ping-pong runs in the style of the dormant sleep_test.go (SEARCH AID ONLY, tag 5, not compared with the model). non-trivial = at least one step was scheduled (tag 1 sleeper never parked / never woken, 2 parked and woken by goready, 3 ended parked after having been woken, 4 Done executed); distinct = distinct case lines",
+    rule="controlled schedules of the REAL pkg/sleep code (instrumented copy generated per run from the current sleep_unsafe.go after the standard three-line toolchain patch: a schedule point before every sync/atomic call and before gopark; one goroutine is granted one atomic operation at a time; API-call boundaries are steps of their own): exhaustive DFS over all schedules of small client sets with visited-real-state pruning (quick: 3 sets of 1 sleeper goroutine + 1 asserting goroutine on 1 waker: the classic prepare/re-check/commit window, assert-clear-reassert against blocking and non-blocking Fetch, Done racing with Assert then re-AddWaker; thorough: + 5 sets of 1 sleeper + 2-3 goroutines on 1-2 wakers, depth bound 48, at most 4500 runs per set: the first 2-waker set (AddWaker x2, Fetch(true) x2 against one Assert on each waker; 4222 runs, 1192 real states) is enumerated completely, the larger ones are cut at the bound) + seeded random walks (optionally sticky) over random client programs: thread 0 = AddWaker of 1-3 wakers (one possibly late, one possibly asserted before being added), 1-5 blocking/non-blocking Fetches, optional Done + re-AddWaker with new ids + Fetches, occasional Assert by the sleeper goroutine itself; 1-4 further goroutines x 1-4 calls of Assert (60%) / Clear (25%) / IsAsserted (15%) (quick 300 runs, thorough 10000). After EVERY step (stepping thread's schedule point, thread 0's point or parked, API return value, every w.s class, waitingG class, sharedList / localList / allWakers as id lists read through overlay-added accessors) is compared with the Coq model run on the same schedule with the same step function the theorems are about; at the end of a maximal run the model must agree that nothing is enabled. The sleeper's real park is predicted from the real state (gopark granted while waitingG == preparingG); a readied sleeper is awaited with a 2 s watchdog (hung = violation). + uncontrolled Gosched-injection ping-pong runs in the style of the dormant sleep_test.go (SEARCH AID ONLY, tag 5, not compared with the model). non-trivial = at least one step was scheduled (tag 1 sleeper never parked / never woken, 2 parked and woken by goready, 3 ended parked after having been woken, 4 Done executed); distinct = distinct case lines",
     trusted_base=[KERNEL, CORR_TB,
                   "Print Assumptions: every C19 theorem is closed under the global context (no axioms)",
                   "modelled, not verified: pkg/sleep/sleep_unsafe.go + commit_noasm.go (hand-written Gallina transition system Model/Sleep.v at the granularity of the atomic operations, tied by the controlled-schedule run)",
